@@ -34,7 +34,7 @@ impl Prop for C19 {
         "fault_enumeration"
     }
     fn rule(&self) -> String {
-        "cases = a generated conversation (C03-style: writer programs with explicit finishes and drops, prepared statements, QUIT- or EOF-terminated, generated read/write chunking) run fault-free to obtain its operation trace (N transport operations, B inbound bytes), then re-run with EVERY fault point: end-of-stream after k bytes for k = 0..B; a one-off error at operation k, a persistent error from operation k, and write() -> Ok(0) at operation k for k = 0..N-1; plus a tagged shim error at every callback index; enumerated conversations whose response contains a packet of 2^24-1 bytes or more (written explicitly and from a destructor). Oracle: EOF => Ok iff k is a command boundary at or after the end of the handshake exchange (or QUIT was already consumed), else Err; transport fault => Err (never Ok, never a panic), the callback log is a prefix of the fault-free log and no callback starts after the fault; shim error => returned unchanged, no later callback. evaluations counts conversations; faulted_runs counts the enumerated re-runs. Non-trivial = the conversation has >= 3 commands and >= 1 resultset program.".into()
+        "cases = a generated conversation (C03-style: writer programs with explicit finishes and drops, prepared statements, QUIT- or EOF-terminated, generated read/write chunking) run fault-free to obtain its operation trace (N transport operations, B inbound bytes), then re-run with EVERY fault point: end-of-stream after k bytes for k = 0..B; a one-off error at operation k, a persistent error from operation k, write() -> Ok(0) at operation k for k = 0..N-1, and a read interrupted with ErrorKind::Interrupted at every read operation (which the library may either report or retry transparently, but the callback log must stay a prefix of the fault-free log); plus a tagged shim error at every callback index; enumerated conversations whose response contains a packet of 2^24-1 bytes or more (written explicitly and from a destructor). Oracle: EOF => Ok iff k is a command boundary at or after the end of the handshake exchange (or QUIT was already consumed), else Err; transport fault => Err (never Ok, never a panic), the callback log is a prefix of the fault-free log and no callback starts after the fault; shim error => returned unchanged, no later callback. evaluations counts conversations; faulted_runs counts the enumerated re-runs. Non-trivial = the conversation has >= 3 commands and >= 1 resultset program.".into()
     }
     fn exhaustive_note(&self, _tier: Tier) -> Option<String> {
         Some("fault points of each generated conversation (all k for EOF / one-off / persistent / zero-write faults, all callback indexes for shim errors)".into())
@@ -210,6 +210,38 @@ impl Prop for C19 {
                 }
                 k += stride;
             }
+        }
+
+        // 2b. a read interrupted by a signal (ErrorKind::Interrupted): the library may report it or
+        // retry it transparently, but it must not act on bytes the client never sent
+        let mut k = 0;
+        while k < n_ops {
+            if base.ops.get(k).map(|op| op.kind == OpKind::Read).unwrap_or(false) {
+                let mut cc = c.clone();
+                cc.fault = Fault::InterruptedRead(k);
+                let o = run_with(&cc, None, false);
+                runs += 1;
+                match &o.result {
+                    RunResult::Panic(p) => {
+                        ex.fail(format!("c19-eintr-panic|{}", panic_signature(p)), format!("interrupted read at operation {}: {}", k, o.result.brief()));
+                        return ex;
+                    }
+                    RunResult::Ok => {
+                        // retried transparently: everything must be as in the fault-free run
+                        if o.events != base.events || o.out != base.out {
+                            ex.fail("c19-eintr-retry-differs", format!("read at operation {} was interrupted and retried, but the conversation differs from the fault-free run ({} callbacks vs {})", k, o.events.len(), base.events.len()));
+                            return ex;
+                        }
+                    }
+                    _ => {}
+                }
+                if !is_prefix(&o.events, &base.events) {
+                    let bad = o.events.iter().zip(base.events.iter().chain(std::iter::repeat(&Event::Close(u32::MAX)))).find(|(a, b)| a != b).map(|(a, _)| a.brief()).unwrap_or_default();
+                    ex.fail("c19-eintr-callbacks", format!("interrupted read at operation {}: the shim was shown something the client never sent: {}", k, bad));
+                    return ex;
+                }
+            }
+            k += stride;
         }
 
         // 3. shim errors at every fallible callback
